@@ -4,6 +4,7 @@ CONSTANTS
   Variants = {1}
   AllowRename = TRUE
   AllowBatchRace = FALSE
+  Fixed = FALSE
 INIT IInit
 NEXT INext
 INVARIANT ExactAfterDrain
